@@ -8,15 +8,18 @@ import stat
 BASES = ["alpha", "Bëta", "日本", "sp ace", ".dot", "c:x", "e\U0001F600", "tab\tx", "UP.per", "z-last"]
 
 
-def node_names(nodes):
+def node_names(nodes, seed=0):
     # listing order must equal index order: prefix with the index so that sorted(os.listdir) keeps it
+    if seed % 3 == 1:
+        # siblings whose names are prefixes of each other ("lib", "libx", "libxx": a prefix sorts first, so index order is kept)
+        return ["lib" + "x" * i for i in range(len(nodes))]
     return [f"{i:02d}-{BASES[i % len(BASES)]}" for i in range(len(nodes))]
 
 
 def build(root, nodes, seed):
     """create the tree under root (which is created); returns {rel path: node index}"""
     R = random.Random(seed)
-    names = node_names(nodes)
+    names = node_names(nodes, seed)
     os.makedirs(root)
     rel = {}
 
@@ -39,6 +42,10 @@ def build(root, nodes, seed):
     for i, n in enumerate(nodes):
         if n["k"] == "link":
             full = os.path.join(root, rel[i])
+            if n["t"] == 0:
+                # the root of the tree itself (upward-but-inside)
+                os.symlink(os.path.relpath(root, os.path.dirname(full)), full)
+                continue
             ti = n["t"] - 1
             tgt = os.path.join(root, rel[ti])
             # the same destination can be spelled through a directory link: when the target lies inside a directory that an
@@ -80,6 +87,8 @@ def has_cycle(nodes):
             edges[nd["p"]].add(j)
         if nd["k"] == "link" and nd["t"]:
             edges[j].add(nd["t"])
+        elif nd["k"] == "link":
+            edges[j].update(k for k, x in enumerate(nodes, start=1) if x["p"] == 0)     # a link to the root reaches every top-level node
     for i in range(1, n + 1):
         seen, todo = set(), list(edges[i])
         while todo:
@@ -168,7 +177,17 @@ def run_case(case):
     cwd = os.getcwd()
     try:
         os.chdir(os.path.join(wd, "src"))
-        if case["via"] == "api":
+        if case["via"] == "api" and case.get("arcroot"):
+            # the tree's entries at the root of the archive (chdir into it, writeall(".")): a link that climbs to the tree's root
+            # resolves to the extraction directory itself
+            os.chdir(src_root)
+            with py7zr.SevenZipFile(arc, "w", dereference=deref, password=case.get("password")) as z:
+                z.writeall(".")
+            os.chdir(os.path.join(wd, "src"))
+            with py7zr.SevenZipFile(arc, "r", password=case.get("password")) as z:
+                z.extractall(out)
+            top = ""
+        elif case["via"] == "api":
             with py7zr.SevenZipFile(arc, "w", dereference=deref, password=case.get("password")) as z:
                 z.writeall("tree", case.get("arcname"))
             with py7zr.SevenZipFile(arc, "r", password=case.get("password")) as z:
@@ -191,9 +210,9 @@ def run_case(case):
             if r1.returncode or r2.returncode:
                 raise RuntimeError(f"cli exit {r1.returncode}/{r2.returncode}: {r1.stderr[-200:]} {r2.stderr[-200:]}")
             top = "tree"
-        got_root = os.path.join(out, top)
+        got_root = os.path.join(out, top) if top else out
         obs["entries"] = compare(src_root, got_root, nodes, rel, deref)
-        stray = [x for x in os.listdir(out) if x != top.split("/")[0]]
+        stray = [x for x in os.listdir(out) if x != top.split("/")[0]] if top else []
         if stray:
             obs["ok"], obs["exc"] = False, f"unexpected entries next to the tree: {stray[:3]}"
     except Exception as e:  # noqa
